@@ -19,6 +19,21 @@ def _self_attr(e, selfname):
     return isinstance(e, ast.Attribute) and isinstance(e.value, ast.Name) and e.value.id == selfname
 
 
+def calls_mstep(P, f, call, mstep_names, depth=0):
+    """Does this call invoke an M-step, directly or through a helper of the package (one EM iteration factored out)?"""
+    fexpr = P.peel_call(call, f)[1]
+    if src(fexpr).split(".")[-1] in mstep_names:
+        return True
+    if depth >= 2:
+        return False
+    for t_ in P.resolve_callee(fexpr, f):
+        if t_[0] == "repo" and t_[1].qualname.split(".")[-1] not in ("fit", "initialize", "initialize_gaussians"):
+            g = t_[1]
+            if any(isinstance(c, ast.Call) and calls_mstep(P, g, c, mstep_names, depth + 1) for c in walk_no_nested(g.node)):
+                return True
+    return False
+
+
 def analyse(P, R, key, cap_attr, thr_attr, mstep_names, rule="LOOP"):
     f = P.func(key)
     R.analysed(f)
@@ -28,7 +43,7 @@ def analyse(P, R, key, cap_attr, thr_attr, mstep_names, rule="LOOP"):
     F = LoopFacts()
     F.func, F.du = f, du
     # ---- L1: the loop, its cap and its counter -------------------------------------------------
-    loops = [n for n in cfg.nodes() if isinstance(n, (ast.While, ast.For)) and any(isinstance(c, ast.Call) and src(P.peel_call(c, f)[1]).split(".")[-1] in mstep_names for c in walk_no_nested(n))]
+    loops = [n for n in cfg.nodes() if isinstance(n, (ast.While, ast.For)) and any(isinstance(c, ast.Call) and calls_mstep(P, f, c, mstep_names) for c in walk_no_nested(n))]
     # keep the outermost loops only
     loops = [l for l in loops if not any(l is not o and any(x is l for x in walk_no_nested(o)) for o in loops)]
     if len(loops) != 1:
@@ -282,20 +297,30 @@ def check_criterion_source(P, R, F, key, mstep_names, rule="LOOP.L4-mstep"):
     cur = F.cur
     n = 0
 
-    def second_of_mstep(d, depth=0):
-        """Does definition d carry component 1 of an M-step call (possibly through dask.compute(...)[0], an attribute copy)?"""
-        if depth > 4 or d.value is None:
+    def second_of_mstep(d, depth=0, f=f, du=du):
+        """Does definition d carry component 1 of an M-step call (possibly through dask.compute(...)[0], an attribute copy, or a
+        helper of the package that returns it)?"""
+        if depth > 6 or d.value is None:
             return False
         v = d.value
         idx = d.index
+        if d.how == "assign" and isinstance(v, ast.Call):
+            # criterion = _em_iteration(...): every return of the helper carries the M-step's second result
+            for t_ in P.resolve_callee(P.peel_call(v, f)[1], f):
+                if t_[0] == "repo" and t_[1].qualname.split(".")[-1] not in mstep_names:
+                    g = t_[1]
+                    gdu = get_defuse(g, P)
+                    rets = [r for r in walk_no_nested(g.node) if isinstance(r, ast.Return) and r.value is not None]
+                    if rets and all(isinstance(r.value, ast.Name) and gdu.reaching(r, r.value.id) and all(second_of_mstep(x, depth + 1, g, gdu) for x in gdu.reaching(r, r.value.id)) for r in rets):
+                        return True
         if d.how == "assign" and isinstance(v, ast.Attribute):
             # distance = self.average_min_distance : follow the access path
             path = src(v)
             rd = du.reaching(d.stmt, path)
-            return bool(rd) and all(second_of_mstep(x, depth + 1) for x in rd)
+            return bool(rd) and all(second_of_mstep(x, depth + 1, f, du) for x in rd)
         if d.how == "assign" and isinstance(v, ast.Name):
             rd = du.reaching(d.stmt, v.id)
-            return bool(rd) and all(second_of_mstep(x, depth + 1) for x in rd)
+            return bool(rd) and all(second_of_mstep(x, depth + 1, f, du) for x in rd)
         if d.how == "unpack" and idx == 1:
             # peel dask.compute(X)[0]
             e = v
